@@ -148,7 +148,7 @@ def recs_for(draw, fmt, n):
             out.append({"stamp": stamp, "offset": off, "utc_ms": ms_of(local - D.timedelta(minutes=off)), "lat": lat, "lon": lon, "depth": depth, "mag": mag})
         elif fmt == "ingv_horus":
             roll = draw(st.sampled_from(["none", "none", "sec", "min", "hour", "all"]))
-            sec = draw(st.integers(0, 59)) + draw(st.integers(0, 99)) / 100.0
+            sec = draw(st.sampled_from([0, 0, 59, 30]) | st.integers(0, 59)) + draw(st.sampled_from([0, 0, 99]) | st.integers(0, 99)) / 100.0
             H, M = hh, mi
             if roll in ("sec", "all"):
                 sec += 60
@@ -161,7 +161,7 @@ def recs_for(draw, fmt, n):
         elif fmt == "ndk":
             sec = draw(st.one_of(st.integers(0, 599).map(lambda x: x / 10.0), st.just(60.0)))
             out.append({"year": y, "month": m, "day": d, "hour": hh, "minute": mi, "second": sec, "lat": lat, "lon": lon, "depth": min(depth, 699.0),
-                        "moment": draw(st.floats(1.0, 9.999)), "exp": draw(st.integers(22, 30)), "name": "C%04d%02d%02d%02d%02dA" % (y, m, d, hh, mi),
+                        "moment": draw(st.one_of(st.floats(1.0, 9.999), st.floats(100.0, 999.999))), "exp": draw(st.integers(20, 30)), "name": "C%04d%02d%02d%02d%02dA" % (y, m, d, hh, mi),
                         # the documented alternatives of the categorical fields
                         "depth_type": draw(st.sampled_from(["FREE", "FREE", "FIX", "BDY"])), "cmt_type": draw(st.sampled_from([0, 1, 1, 2])),
                         "mr_type": draw(st.sampled_from(["TRIHD", "BOXHD"])), "stamp": draw(st.sampled_from(["S-20060726112355", "Q-20060726112355", "O-00000000000000"])),
